@@ -306,6 +306,17 @@ def make_replay(h, prop, tier, logdir):
             "kani_args": h.args}
     json.dump(info, open(os.path.join(rdir, "replay.json"), "w"), indent=1)
     if not tests:
+        # No playback test could be extracted. If the playback run itself reached a verdict this is a
+        # real mismatch (None = unconfirmed). If cargo-kani died or timed out while producing the
+        # trace (kani-driver needs tens of GB to parse the JSON trace of the large harnesses), the
+        # counterexample exists but cannot be materialised with this tool: "tool-limit".
+        if "VERIFICATION:-" not in out:
+            open(os.path.join(rdir, "SOLVER-ONLY.md"), "w").write(
+                f"# {prop} / {h.name}\n\nThe solver refuted this harness on the current tree, but Kani's concrete-playback "
+                f"generation did not complete (timeout or kani-driver out of memory), so no native unit test was produced.\n"
+                f"Re-run: `cd /verif && ./check {prop} --tier {tier} --only {h.name}`; failed checks are in "
+                f"`.target/logs/{prop}/{h.name}.log`.\n")
+            return rdir, "tool-limit"
         return rdir, None
     rep = run_replay(rdir, logdir)
     return rdir, rep
@@ -447,10 +458,13 @@ def check_property(prop, tier, only=None, jobs=None, seed=0):
             path, rep = make_replay(h, prop, tier, logdir)
             r["replay"] = path
             r["reproduced"] = rep
-            if rep is True:
+            if rep is True or rep == "tool-limit":
                 violations += 1
                 log(f"VIOLATION property={prop} replay={path}")
                 log(f"  failed checks: {r['failed_checks'][:4]}")
+                if rep == "tool-limit":
+                    log(f"  note: the solver's counterexample could not be turned into a native test (concrete-playback "
+                        f"generation hit a tool resource limit); the verdict rests on the solver, see {path}/SOLVER-ONLY.md")
                 exit_code = 1 if exit_code != 1 else 1
             else:
                 log(f"INCONCLUSIVE {h.name}: solver counterexample did not reproduce natively "
